@@ -251,13 +251,17 @@ def process_pyro_request(environ, path, parameters, start_response):
                 return [reply]
             else:
                 proxy._pyroRawWireResponse = True   # we want to access the raw response json
+                # dispatch on the remote object's metadata only; getattr(proxy, method) would also find
+                # the proxy's own attributes (_pyroInvoke, _pyroRelease, ...) and run those instead
                 if method in proxy._pyroAttrs:
                     # retrieve the attribute
                     assert not parameters, "attribute lookup can't have query parameters"
-                    msg = getattr(proxy, method)
-                else:
+                    msg = proxy._pyroInvoke("__getattr__", (method,), None)
+                elif method in proxy._pyroMethods:
                     # call the remote method
-                    msg = getattr(proxy, method)(**parameters)
+                    msg = client._RemoteMethod(proxy._pyroInvoke, method, proxy._pyroMaxRetries)(**parameters)
+                else:
+                    raise AttributeError("remote object '%s' has no exposed attribute or method '%s'" % (uri, method))
                     
                 if msg is None or "oneway" in pyro_options:
                     # was a oneway call, no response available
